@@ -87,6 +87,9 @@ package scheduler
 //@ callreq go func: a1 == duty && duty.Slot == slot.Slot && a2 == defSet && ok
 //@ ensures ncalls("go func") <= len(core.AllDutyTypes())
 //@ loop 1 invariant ncalls("go func") <= $i
+// scheduling a slot never drops stored duty definitions, whatever the early resolution of the next epoch returned
+//@ ensures ncalls(s.trimDuties) == 0
+//@ loop 1 invariant ncalls(s.trimDuties) == 0
 
 //@ func (s *Scheduler) scheduleSlot$1
 //@ props C15 C18
@@ -123,6 +126,9 @@ package scheduler
 //@ callreq s.setResolvedEpoch: a1 == slot.Epoch() && (len(vals) == 0 || (ncalls(s.resolveAttDuties) == 1 && ncalls(s.resolveProDuties) == 1 && ncalls(s.resolveSyncCommDuties) == 1))
 //@ ensures result == nil ==> ncalls(s.setResolvedEpoch) == 1
 //@ ensures result != nil ==> ncalls(s.setResolvedEpoch) == 0
+// only the epoch trimEpochOffset before the one just resolved is dropped, and only after the epoch was marked resolved
+//@ callreq s.trimDuties: a1 == slot.Epoch() - trimEpochOffset && ncalls(s.setResolvedEpoch) == 1
+//@ ensures result != nil ==> ncalls(s.trimDuties) == 0
 
 // Slot ticker: what is emitted is always the ticker's current slot, and after an emission the ticker continues
 // from the successor of the slot it just emitted (never from an older one), so a slot is not emitted twice by
